@@ -173,6 +173,30 @@ impl<Endpoint: Display + PartialEq + Clone> Subject<Endpoint> {
     }
 }
 
+/// Read-only views of the private bookkeeping, for the verification harness
+/// only (compiled with `--cfg coap_lite_verif`).
+#[cfg(coap_lite_verif)]
+impl<Endpoint: Display> Observer<Endpoint> {
+    pub fn verif_unacknowledged(&self) -> u32 {
+        u32::from(self.unacknowledged_messages)
+    }
+
+    pub fn verif_pending_message_id(&self) -> Option<u16> {
+        self.message_id
+    }
+}
+
+/// Places a resource's sequence number, so that the harness can reach the
+/// end of the counter's range (compiled with `--cfg coap_lite_verif`).
+#[cfg(coap_lite_verif)]
+impl<Endpoint: Display + PartialEq + Clone> Subject<Endpoint> {
+    pub fn verif_set_sequence(&mut self, resource: &str, sequence: u32) {
+        if let Some(resource) = self.resources.get_mut(resource) {
+            resource.sequence = sequence;
+        }
+    }
+}
+
 /// Creates a notification response for notifying observers about an update.
 pub fn create_notification(
     message_id: u16,
